@@ -311,10 +311,12 @@ func record(f *mbt.Flags) {
 		rounds = 1
 	}
 	cnt := map[string]int{}
-	w := newWorld()
-	pre := w.observe()
-	emit(line{"act": "Init", "bal": pre.U, "balV": pre.V})
 	for r := 0; r < rounds; r++ {
+		// every round runs on a fresh application: the delegation controls at the end of a round hand the
+		// vault's authority away for good, which would blunt the statement for everything after them
+		w := newWorld()
+		pre := w.observe()
+		emit(line{"act": "Init", "bal": pre.U, "balV": pre.V})
 		for _, t := range program(rng, r) {
 			l, post, log := w.exec(t, pre)
 			l["log"] = shorten(log)
